@@ -474,3 +474,17 @@ def r2c(ctx):
         if "algorithm-gate" in r.key or r.status != "PASS":
             r.rule = "C13-R2c"
             yield r
+
+
+@M.rule("C13-R2d", "rule 6b (parameter syntax) fires exactly for a parameter without '=': the cut is at the first '=' of the trimmed element (shared with C19-R2)")
+def r2d(ctx):
+    import c19
+
+    n = 0
+    for r in c19.r2(ctx):
+        if "param-trim" in r.key or "header-trim" in r.key or r.status != "PASS":
+            r.rule = "C13-R2d"
+            n += 1
+            yield r
+    if not n:
+        yield MISSING("C13-R2d", "param-syntax/no-instance", "no parameter-syntax instance of C19-R2")
